@@ -613,8 +613,116 @@ func runC11(c *core.Ctx) core.Meta {
 		}
 	}
 
+	// R11.2 host value, by the type of the command: in every response handler of the asynchronous
+	// middleware (the functions that look the command up by the returned request, helpers expanded),
+	// no path reaches Dequeue unless the command is known not to be a device-to-host copy (a type
+	// test of the COMMAND value) or RawData was decoded into Dst. A decision taken on the type of
+	// the returning request does not count: the last response of a device-to-host copy can be the
+	// flush acknowledgement of another GPU.
+	{
+		isCmdIface := func(v ssa.Value) bool {
+			nt, ok := v.Type().(*types.Named)
+			return ok && nt.Obj().Name() == "Command" && nt.Obj().Pkg() != nil && nt.Obj().Pkg().Path() == core.ModPath+"/"+driverPkg
+		}
+		assertedName := func(ta *ssa.TypeAssert) string {
+			t := ta.AssertedType
+			if pt, ok := t.(*types.Pointer); ok {
+				t = pt.Elem()
+			}
+			if nt, ok := t.(*types.Named); ok {
+				return nt.Obj().Name()
+			}
+			return ""
+		}
+		notD2HCut := func(n *core.Node, i int) bool {
+			ifi, ok := n.Instr.(*ssa.If)
+			if !ok {
+				return false
+			}
+			v, neg := stripNot(ifi.Cond)
+			ex, ok := v.(*ssa.Extract)
+			if !ok || ex.Index != 1 {
+				return false
+			}
+			ta, ok := ex.Tuple.(*ssa.TypeAssert)
+			if !ok || !ta.CommaOk || !isCmdIface(ta.X) {
+				return false
+			}
+			isD2HOnTrue := !neg
+			switch assertedName(ta) {
+			case "MemCopyD2HCommand":
+				// the edge on which the command is not a device-to-host copy
+				if isD2HOnTrue {
+					return i == 1
+				}
+				return i == 0
+			case "":
+				return false
+			default:
+				// the command is of another concrete type on the success edge
+				if isD2HOnTrue {
+					return i == 0
+				}
+				return i == 1
+			}
+		}
+		for _, fn := range pd.Funcs {
+			name := core.FuncName(fn)
+			if !strings.HasPrefix(name, "defaultMemoryCopyMiddleware.") {
+				continue
+			}
+			looksUp := false
+			for _, b := range fn.Blocks {
+				for _, in := range b.Instrs {
+					if cal := core.CalleeFunc(in); cal != nil && cal.Name() == "findCommandByReq" {
+						looksUp = true
+					}
+				}
+			}
+			if !looksUp {
+				continue
+			}
+			g := core.BuildGraph(fn, 2, func(cal *ssa.Function) bool {
+				return cal.Pkg == fn.Pkg && strings.HasPrefix(core.FuncName(cal), "defaultMemoryCopyMiddleware.")
+			})
+			deqs := g.NodesWhere(func(n *core.Node) bool { return isDequeue(n.Instr) })
+			if len(deqs) == 0 {
+				continue
+			}
+			st2.Instances++
+			c.MarkAnalysed(fn)
+			var bad *core.Node
+			done := g.Walk([]core.State{{N: g.Entry}}, core.WalkOpts{
+				Stop: func(n *core.Node) bool {
+					if core.IsCall(n.Instr, "encoding/binary.Read") {
+						a := core.CallOf(n.Instr).Args
+						return strings.HasSuffix(prov.Of(a[2]), ".Dst") && strings.Contains(prov.Of(a[0]), ".RawData")
+					}
+					if ta, ok := n.Instr.(*ssa.TypeAssert); ok && !ta.CommaOk && isCmdIface(ta.X) {
+						an := assertedName(ta)
+						return an != "" && an != "MemCopyD2HCommand"
+					}
+					return false
+				},
+				CutEdge: notD2HCut,
+			}, func(s core.State) {
+				if isDequeue(s.N.Instr) && (bad == nil || s.N.ID < bad.ID) {
+					bad = s.N
+				}
+			})
+			ok := done && bad == nil
+			st2.Ob(ok)
+			st2.Sample("%s: no path retires a command that may be a device-to-host copy without decoding RawData into Dst: %v", name, ok)
+			if !done {
+				c.Undecided("R11.2", fn, fn.Pos(), "Dequeue:host-value-by-command", "path exploration exceeded its bound")
+			} else if bad != nil {
+				c.ReportAt("R11.2", fn, bad.Instr.Pos(), "Dequeue:host-value-by-command", name+" retires the command on a path on which it may be a device-to-host copy and RawData was not decoded into the host destination (only a type test of the command itself excludes that; the returning request can be the flush of another GPU): MemCopyD2H returns with the destination untouched")
+			}
+		}
+	}
+
 	// ---------------- R11.8 whoever removes the last outstanding request completes the command ----------------
-	st8 := c.Rule("R11.8", "every response handler of the copy middleware that removes a request from a command's outstanding list (copy pieces and the cache flushes attached to the command alike) goes on to retire the command when the list became empty: responses of different GPUs return in any order, and a handler that only removes leaves a command with nothing outstanding at the head of its queue forever", 3)
+	st8 := c.Rule("R11.8", "every response handler of the copy middleware that removes a request from a command's outstanding list (copy pieces and the cache flushes attached to the command alike) goes on to retire the command when the list became empty: responses of different GPUs return in any order, and a handler that only removes leaves a command with nothing outstanding at the head of its queue forever", 1)
 	for _, fn := range pd.Funcs {
 		name := core.FuncName(fn)
 		if !strings.HasPrefix(name, "defaultMemoryCopyMiddleware.") {
